@@ -31,6 +31,17 @@ fn cxfun(t: &mut Toks, cx: &mut Ctx) -> String {
         ("conj", z.conj()), ("abs_arg", Cmplx::new(z.abs(), z.arg())), ("abs_sqr", Cmplx::new(z.abs_sqr(), 0.0)),
     ];
     let get = |n: &str| vals.iter().find(|v| v.0 == n).unwrap().1;
+    if kind == "special" {
+        // the exported constants the formulae are written with (src/constant.rs) are the doubles nearest to their definitions
+        use std::f64::consts as k;
+        let c = ohsl::constant::I;
+        cx.check(c.real == 0.0 && c.imag == 1.0, "constant I is not the imaginary unit");
+        for (name, v, e) in [("PI", ohsl::constant::PI, k::PI), ("PI_2", ohsl::constant::PI_2, k::FRAC_PI_2), ("PI_4", ohsl::constant::PI_4, k::FRAC_PI_4),
+            ("FRAC_1_PI", ohsl::constant::FRAC_1_PI, k::FRAC_1_PI), ("FRAC_2_PI", ohsl::constant::FRAC_2_PI, k::FRAC_2_PI), ("TAU", ohsl::constant::TAU, k::TAU),
+            ("SQRTPI", ohsl::constant::SQRTPI, 1.772453850905516_f64), ("SQRT2", ohsl::constant::SQRT2, k::SQRT_2), ("SQRT1_2", ohsl::constant::SQRT1_2, k::FRAC_1_SQRT_2),
+            ("E", ohsl::constant::E, k::E), ("EULER", ohsl::constant::EULER, 0.5772156649015329_f64)] {
+            cx.check(v.to_bits() == e.to_bits(), &format!("constant {} = {:e} is not the double nearest to its definition ({:e})", name, v, e)); }
+    }
     let r = cabs(z);
     let tol = 1e-9;
     let nonzero = r > 0.0;
